@@ -69,6 +69,12 @@ Theorem c20_monotone_partial : forall nclose sch,
 Proof. exact monotone_partial. Qed.
 Print Assumptions c20_monotone_partial.
 
+(* the guarded runs are runs of the faithful model (each atomic window is two
+   consecutive blocks of the same thread) *)
+Theorem c20_guarded_runs_are_runs : forall sch s, exists sch', runA s sch = run s sch'.
+Proof. exact runA_is_run. Qed.
+Print Assumptions c20_guarded_runs_are_runs.
+
 (* OnOpen / OnClose handlers run at most once per registration, every schedule
    of the faithful model *)
 Theorem c20_once : forall nclose sch,
